@@ -475,12 +475,15 @@ class Samples(BaseSamples):
         self.weights = self.xp.exp(self.log_w)
         self.evidence = self.xp.exp(self.log_evidence)
         n = len(self.x)
-        self.evidence_error = self.xp.sqrt(
-            self.xp.sum((self.weights - self.evidence) ** 2) / (n * (n - 1))
+        # Relative error computed from weights normalised by the evidence in
+        # log space: exp(log_w) overflows (or underflows to zero everywhere)
+        # for log-weights far outside the range of exp(), which turned
+        # inf - inf and 0 / 0 into NaN although log_evidence itself is fine.
+        relative_weights = self.xp.exp(self.log_w - self.log_evidence)
+        self.log_evidence_error = self.xp.sqrt(
+            self.xp.sum((relative_weights - 1.0) ** 2) / (n * (n - 1))
         )
-        self.log_evidence_error = self.xp.abs(
-            self.evidence_error / self.evidence
-        )
+        self.evidence_error = self.log_evidence_error * self.evidence
         log_w = self.log_w - self.xp.max(self.log_w)
         self.effective_sample_size = self.xp.exp(
             asarray(logsumexp(log_w) * 2 - logsumexp(log_w * 2), self.xp)
